@@ -1,11 +1,113 @@
+"""C14 -- coercion only widens acceptance, per the documented table (spec/DataModel.tla: CoerceTo)."""
+import json
+import sys
+import types
+
 from harness import common, engine_deser
+
+VALIDATED_SRC = '''
+from dataclasses import dataclass, field
+from typing import Annotated, List, NewType
+from apischema import ValidationError, validator
+from apischema.metadata import validators
+
+Even = NewType("Even", int)
+
+
+@validator
+def check_even(n: Even):
+    if n % 2:
+        raise ValidationError("odd")
+
+
+def short(xs):
+    if len(xs) > 2:
+        raise ValidationError("too long")
+
+
+def positive(n):
+    if n < 0:
+        raise ValidationError("negative")
+
+
+ShortList = Annotated[List[int], validators(short)]
+
+
+@dataclass
+class Holder:
+    n: int = field(default=0, metadata=validators(positive))
+    xs: List[int] = field(default_factory=list, metadata=validators(short))
+'''
+
+
+def validated_types_law(rep: common.Report) -> int:
+    """Beyond the universe (its encoding has no type-level validators): coercion converts the datum, it does not
+    waive what is checked afterwards.  For right-typed data the strict and the coercing call agree; a coercible
+    datum is accepted iff its converted form is accepted in strict mode."""
+    from apischema import ValidationError, deserialize
+
+    import linecache
+
+    mod = types.ModuleType("verifvalidated")
+    mod.__file__ = "<verifvalidated>"
+    sys.modules["verifvalidated"] = mod
+    # validators read their own source (dependency discovery): serve it from linecache
+    linecache.cache[mod.__file__] = (len(VALIDATED_SRC), None, VALIDATED_SRC.splitlines(True), mod.__file__)
+    exec(compile(VALIDATED_SRC, mod.__file__, "exec"), mod.__dict__)
+
+    def outcome(tp, d, **kw):
+        try:
+            return ("ok", repr(deserialize(tp, d, **kw)))
+        except ValidationError:
+            return ("rejected", None)
+        except Exception as exc:
+            return ("raised", type(exc).__name__)
+
+    ident = lambda cls, data: data  # noqa: E731
+    n = 0
+    # (type, right-typed data, [(coercible datum, its converted form)])
+    table = [(mod.Even, [2, 3, 0, -1], [("4", 4), ("3", 3)]),
+             (mod.ShortList, [[1], [1, 2, 3], []], []),
+             (mod.Holder, [{"n": 1}, {"n": -1}, {"xs": [1, 2, 3]}, {"xs": [1]}, {}], [({"n": "-2"}, {"n": -2}), ({"n": "5"}, {"n": 5})])]
+    for tp, right, coercible in table:
+        for d in right:
+            n += 1
+            strict = outcome(tp, d)
+            for label, kw in (("coerce=True", {"coerce": True}), ("coerce=<identity coercer>", {"coerce": ident})):
+                got = outcome(tp, d, **kw)
+                if got != strict:
+                    rep.violation(f"validated types: deserialize({getattr(tp, '__name__', tp)}, {json.dumps(d)}, {label}) = {got} but strict "
+                                  f"mode gives {strict}: coercion changed the outcome of a right-typed datum", {"data": d})
+        for d, conv in coercible:
+            n += 1
+            want = outcome(tp, conv)
+            got = outcome(tp, d, coerce=True)
+            if got != want:
+                rep.violation(f"validated types: deserialize({getattr(tp, '__name__', tp)}, {json.dumps(d)}, coerce=True) = {got} but its "
+                              f"converted form {json.dumps(conv)} gives {want} in strict mode", {"data": d})
+    # numbers outside the range of the model's integers: what strict mode accepts, coercion accepts (the image may
+    # come from an earlier alternative of a union), and coercion never lets another exception than ValidationError out
+    from typing import List, Optional, Union
+
+    for tp in (float, int, Optional[float], Union[float, int], Union[int, float], List[float]):
+        for d in (10**400, -(10**400), [10**400], 2**70, float("inf"), "1e999"):
+            n += 1
+            strict = outcome(tp, d)
+            got = outcome(tp, d, coerce=True)
+            if got[0] == "raised" or (strict[0] == "ok" and got[0] != "ok"):
+                rep.violation(f"large numbers: deserialize({tp}, {str(d)[:12]}..., coerce=True) = {got}, strict mode gives {strict}",
+                              {"type": str(tp), "data": str(d)[:40]})
+    return n
 
 
 def main() -> int:
     rep = common.Report("C14", "model_checking")
     rep.assumptions = ["reference semantics = spec/DataModel.tla (first accepting alternative; documented coercion table)",
-                       "string -> number parsing and boolean words are Python's own, carried as string attributes"]
+                       "string -> number parsing and boolean words are Python's own, carried as string attributes",
+                       "type-level validators (NewType / Annotated / field metadata on primitives and collections) are outside the "
+                       "universe's encoding: the law strict = coerced on right-typed data is checked on the real code directly"]
     engine_deser.run("C14", rep, coerce=True, tiers_quick=("d0", "d1", "u"), tiers_thorough=("d0", "d1", "u", "d2"), identity_coercer_pass=True)
+    rep.set("validated_types_cases", validated_types_law(rep))
     return rep.finish()
 
 
